@@ -37,6 +37,11 @@ class Module:
                 fq = func_qual
                 if isinstance(child, (ast.FunctionDef, ast.AsyncFunctionDef)):
                     cq = f'{qual}.{child.name}' if qual else child.name
+                    if cq in self.funcs:          # same name defined again in the same scope
+                        k = 2
+                        while f'{cq}#{k}' in self.funcs:
+                            k += 1
+                        cq = f'{cq}#{k}'
                     self.funcs[cq] = child
                     fq = cq
                 elif isinstance(child, ast.ClassDef):
